@@ -88,7 +88,7 @@ m = {
    {"name": "pyvc-E2", "path": "/verif/pyvc/gen_verify.py", "serves_properties": sorted(P2), "kind_free_text": "runs /repo's real generator on enumerated spec trees and verifies every emitted class against XML-derived contracts (xmlsem); native replay on the real generated code"},
  ],
  "checks": checks + extra.get("checks", []) if isinstance(extra, dict) else checks,
- "notes": "fix: commits in /repo: bde54fa (C11 _mod), 52a31ac (C02 boolean attributes), aadc2ea (C03 optional arrays), 2548e49 (C17 named hard-coded values), 4ae0d01 (C19 blob immutability), 8e5e042 (C02 reached_missing_optional read before assignment), 2169421 (C18 empty objects emitted with an empty try body). Known findings recorded, not repaired (DESIGN 12.3): C03, a read-to-end array of a chunk-first bounded element outside a chunked section never terminates on 0xFF; C03, an optional length field referenced from a later chunk makes deserialize raise TypeError. See known_findings.json and DESIGN.md.",
+ "notes": "fix: commits in /repo: bde54fa (C11 _mod), 52a31ac (C02 boolean attributes), aadc2ea (C03 optional arrays), 2548e49 (C17 named hard-coded values), 4ae0d01 (C19 blob immutability), 8e5e042 (C02 reached_missing_optional read before assignment), 2169421 (C18 empty objects emitted with an empty try body), d697405 (C02 missing-optional flag not reset at a break), b6be367 (C18 comments with triple quotes / backslashes). Known findings recorded, not repaired (DESIGN 12.3): C03, a read-to-end array of a chunk-first bounded element outside a chunked section never terminates on 0xFF; C03, an optional length field referenced from a later chunk makes deserialize raise TypeError. See known_findings.json and DESIGN.md.",
  "not_applicable": (extra.get("not_applicable") if isinstance(extra, dict) else None) or [
    {"property_id": p, "reason": "check under construction in this build phase (see DESIGN.md section 5); not claimed yet"} for p in
    []] + [
